@@ -92,7 +92,7 @@ def gen_case(rng, arm, tier, k=0):
     # two persistent model objects that are re-used across calls (max_k may exceed what a small
     # matrix supports: such a fit raises, consistently, and the object is used again afterwards)
     case["slots"] = [
-        {"kind": rng.choice(KINDS), "metric": rng.choice(sorted(REAL_DOMAIN)), "max_k": rng.randint(1, 9), "min_k": 1}
+        {"kind": rng.choice(KINDS + ("unsup",)), "metric": rng.choice(sorted(REAL_DOMAIN)), "max_k": rng.randint(1, 9), "min_k": 1}
         for _ in range(2)
     ]
     for m_ in mats:
@@ -148,6 +148,14 @@ def gen_case(rng, arm, tier, k=0):
             n = len(mats[k]["X"])
             mk = rng.randint(1, min(4, n - 1))
             ops.append(["prefit", rng.choice(("supervised", "knn", "unsup")), k, mk, rng.randint(1, mk), rng.random() < 0.6])
+        elif arm == "mixed" and rng.random() < 0.05:
+            # one model object: fit, predict some rows, then predict other rows (twice)
+            sl, ka, kb, kc = rng.randrange(2), rng.randrange(len(mats)), rng.randrange(len(mats)), rng.randrange(len(mats))
+            lab_ = rng.random() < 0.5
+            ops.append(["mfit", sl, ka, kb, lab_])
+            ops.append(["mpredict", sl, ka, kb, lab_])
+            ops.append(["mpredict", sl, ka, kc, lab_])
+            ops.append(["mpredict", sl, ka, kc, lab_])
         elif arm == "mixed" and rng.random() < 0.12:
             ops.append([rng.choice(("mfit", "mfit", "mpredict")), rng.randrange(2), rng.randrange(len(mats)), rng.randrange(len(mats)), rng.random() < 0.5])
             if ops[-1][0] == "mpredict" and rng.random() < 0.6:
